@@ -182,6 +182,14 @@ class Check:
         if not os.path.exists(gosum):
             shutil.copy(os.path.join(REPO, "go.sum"), gosum)
         cmd = ["go", "test", "-tags", tags, "-count=1", "-timeout", "%ds" % timeout, "-run", run, pkg]
+        if REPO != "/repo":
+            # a scratch copy of the repository (bin/tryseed): same harness module, replace directive pointed at the copy
+            mf = os.path.join(self.tmp, "alt.mod")
+            if not os.path.exists(mf):
+                txt = open(os.path.join(HARNESS, "go.mod")).read().replace("=> /repo", "=> " + REPO)
+                open(mf, "w").write(txt)
+                shutil.copy(gosum, os.path.join(self.tmp, "alt.sum"))
+            cmd.insert(2, "-modfile=" + mf)
         t = time.time()
         try:
             p = subprocess.run(cmd, cwd=HARNESS, env=e, stdout=subprocess.PIPE, stderr=subprocess.STDOUT,
